@@ -1196,8 +1196,8 @@ def run(tier, seed, replay=None):
         for op, s in zip(case["ops"], obs):
             print(op, "->", s["err"], None if s["tree"] is None else trees.newick(s["tree"]), s["problems"])
         return 0
-    ok = core.proof_stage(ctx, ["Props/C03.vo", "Props/C03Gen.vo"], gen_needed=("Mutators",))
-    ok = core.proof_stage(ctx, ["Props/C03Gen.vo"], props_file="Props/C03Gen.v", gen_needed=("Mutators",)) and ok
+    ok = core.proof_stage(ctx, ["Props/C03.vo", "Props/C03Gen.vo"], gen_needed=("Mutators", "Bipartition"))
+    ok = core.proof_stage(ctx, ["Props/C03Gen.vo"], props_file="Props/C03Gen.v", gen_needed=("Mutators", "Bipartition")) and ok
     if not ok:
         core.broken_proof(ctx, search)
     import dendropy.utility
